@@ -743,6 +743,8 @@ func c06Respell(src string, variant int) string {
 			return "{% " + inner + "\n%}"
 		case 5:
 			return "{%- " + inner + " -%}"
+		case 7:
+			return "{% " + inner + "\r\n%}"
 		}
 		return "{%-" + inner + "-%}"
 	})
@@ -754,7 +756,7 @@ func c06SpellingFamily(tier string) explore.Family {
 		N = 4
 	}
 	K := len(c06Alpha)
-	const variants = 7
+	const variants = 8
 	return explore.Family{Name: fmt.Sprintf("tag-spellings-of-sequences<=%d", N), Count: seqCount(K, N) * variants, Run: func(i int64, r *explore.Rec) {
 		variant := int(i % variants)
 		seq := seqAt(K, i/variants)
